@@ -33,6 +33,7 @@ func drawConcPlan(ch *core.Chooser, env *Env, fileMode int, maxTasks int, kinds 
 
 	// request pool: small, so that tasks collide on the same indices; some
 	// entries differ from their predecessor in exactly one client field
+	allLines := planLines(p.lists)
 	opKinds := []int{workload.OpDNS, workload.OpDNS, workload.OpDNS, workload.OpWeb, workload.OpWeb, workload.OpMatchAll, workload.OpMatchAll, workload.OpMatch, workload.OpCosmetic}
 	for i := 0; i < 12; i++ {
 		if i == 0 {
@@ -45,7 +46,7 @@ func drawConcPlan(ch *core.Chooser, env *Env, fileMode int, maxTasks int, kinds 
 		} else if i > 0 && p.pool[i-1].Kind == workload.OpWeb && ch.Intn("pool.mutate", 3) == 2 {
 			p.pool = append(p.pool, workload.MutateWebOp(ch, p.pool[i-1]))
 		} else {
-			p.pool = append(p.pool, workload.GenOp(ch, p.hosts, opKinds))
+			p.pool = append(p.pool, workload.GenOpFor(ch, p.hosts, opKinds, allLines))
 		}
 		ch.End()
 	}
